@@ -9,6 +9,11 @@ NOTE = ("Trusted: the symgo interpreter and its models of reflect, sync, fmt, so
         "must agree; every reported counterexample is replayed natively first.")
 
 CLAIMED = {
+ "C02": "140 (thorough 700) generated statement programs (depth <= 3: if / else-if chains / else, for, forRange over slice and map, break, continue, return at any depth, plain and compound assignments to locals and to an injected field) plus hand-written programs per clause are compiled by the real front end and executed symbolically; every branch condition is a fresh symbolic boolean or a comparison of locals, loop bounds are symbolic in [0,3]; trace of observer calls, returned value, final locals and final injected state must equal those of the same program emitted as Go code, for every path.",
+ "C03": "One read, write or call per rule over a struct with every numeric width, string, bool, nested struct, pointer, maps, slices, arrays and pointer-injected scalars (all contents symbolic): the host-side value after Execute equals T(x) for every target type and source class (assumed representable), all 50 other locations equal their snapshot (frame condition), reads return the current Go value (zero for a missing key), calls receive converted positional arguments and yield the first result, an injected name is never shadowed. Runs through the reflect model.",
+ "C09": "16 expression faults x 11 positions and 18 statement-level faults (quick: stratified subset), in the sort model and, for the assignment / condition / statement-level positions, in 12 further models: the deciding datum (divisor, index, nil-ness) is symbolic, a path ending in an uncaught panic of any goroutine, a deadlock or the step budget is a violation, faulting paths must return a non-nil error, healthy rules run as the policy prescribes and a second healthy call on the same engine succeeds. The never-ending for is run to the 10000-iteration cut-off.",
+ "C18": "conc blocks with 0..3 (thorough 4) members over every mix of local assignment, injected-field assignment, function, method and three-level call with a symbolic failing subset: every member runs exactly once, the next statement starts after all member end events in every interleaving (schedule SMT), observes every assignment, the block fails iff a member fails and only after all finished (join), and neither the local map nor the error slice is accessed by two goroutines adjacently.",
+ "C20": "Every fault of the C09 table is placed on a known line of a three-rule text with comment and blank lines; on every faulting path each 'line N, column' citation must lie inside the failing statement and never be 0, and for arithmetic, comparison, logic, call and assignment faults the line of the failing construct must be cited.",
  "C12": "All 11 selected entry points over a set of 3 (thorough 4) rules with symbolic saliences / failing subset / policy and an enumerated family of name lists (sub-lists, permutations, unknown names at every position, all-unknown, empty, wrong length): exactly the named existing rules run, sorted variants by salience, as-given variants in list order, concurrent / mix / inverse / N-M variants as their model prescribes over that set (barriers decided by the schedule SMT), and the call fails without running anything where the statement says so.",
  "C13": "DAG model over 4 rules and an enumerated family of layerings (<= 3/4 layers, empty layers, unknown names, repeats inside a layer) with symbolic failing subset: per-layer barriers and join are decided over all interleavings by the schedule SMT, occurrences are counted, a failing layer stops the rest and makes the call fail.",
  "C14": "Stop-tag variants over 1..3 (thorough 4) rules with symbolic tag-setting subset, failing subset, policy and saliences: no rule starts after the first rule that set the tag (mix: nothing after the first rule), and a differential harness proves the tag variants equal to their plain counterparts (trace, error-ness, result map) when the tag is never set.",
